@@ -289,9 +289,18 @@ impl InlineTable {
         self.items.clear();
     }
 
+    /// A placeholder left behind by mutable indexing (`Item::None`) is not an entry
+    fn evict_placeholder(&mut self, key: &str) {
+        if matches!(self.items.get(key), Some(Item::None)) {
+            self.items.shift_remove(key);
+        }
+    }
+
     /// Gets the given key's corresponding entry in the Table for in-place manipulation.
     pub fn entry(&'_ mut self, key: impl Into<InternalString>) -> InlineEntry<'_> {
-        match self.items.entry(key.into().into()) {
+        let key: Key = key.into().into();
+        self.evict_placeholder(key.get());
+        match self.items.entry(key) {
             indexmap::map::Entry::Occupied(mut entry) => {
                 // Ensure it is a `Value` to simplify `InlineOccupiedEntry`'s code.
                 let scratch = std::mem::take(entry.get_mut());
@@ -312,6 +321,7 @@ impl InlineTable {
 
     /// Gets the given key's corresponding entry in the Table for in-place manipulation.
     pub fn entry_format<'a>(&'a mut self, key: &Key) -> InlineEntry<'a> {
+        self.evict_placeholder(key.get());
         // Accept a `&Key` to be consistent with `entry`
         match self.items.entry(key.clone()) {
             indexmap::map::Entry::Occupied(mut entry) => {
@@ -383,6 +393,7 @@ impl InlineTable {
         value: V,
     ) -> &mut Value {
         let key = key.into();
+        self.evict_placeholder(&key);
         self.items
             .entry(Key::new(key))
             .or_insert(Item::Value(value.into()))
@@ -551,6 +562,7 @@ impl TableLike for InlineTable {
         self.clear();
     }
     fn entry<'a>(&'a mut self, key: &str) -> crate::Entry<'a> {
+        self.evict_placeholder(key);
         // Accept a `&str` rather than an owned type to keep `InternalString`, well, internal
         match self.items.entry(key.into()) {
             indexmap::map::Entry::Occupied(entry) => {
@@ -562,6 +574,7 @@ impl TableLike for InlineTable {
         }
     }
     fn entry_format<'a>(&'a mut self, key: &Key) -> crate::Entry<'a> {
+        self.evict_placeholder(key.get());
         // Accept a `&Key` to be consistent with `entry`
         match self.items.entry(key.get().into()) {
             indexmap::map::Entry::Occupied(entry) => {
